@@ -3,6 +3,7 @@ package quic_test
 // C02 — every parrot or derived spec yields a working connection, dial after dial.
 
 import (
+	"context"
 	"fmt"
 	"net"
 	"testing"
@@ -284,6 +285,119 @@ func TestVerifC02Derived(t *testing.T) {
 				c.Violation("C02|leak|goroutines-alive-after-close", lk[0], nil)
 			}
 		})
+		c.End()
+	}
+}
+
+// ---- a UTransport without a spec behaves like a plain Transport ------------------------------
+
+// c02Shape is what must not depend on whether the dial went through Transport or UTransport{nil}:
+// header fields, sizes, transport parameters and ClientHello structure of the first flight
+// (the CRYPTO framing itself is randomised by the ClientHello scrambler in both cases).
+func c02Shape(tap *wiretap.ConnTap) (string, error) {
+	if tap.CH == nil || tap.ClientTP == nil || len(tap.FirstFlight) == 0 {
+		return "", fmt.Errorf("first flight not readable")
+	}
+	// the destination connection ID length is drawn from 8..20 per dial, and one GREASE transport
+	// parameter with a random ID and value is added: both are reduced to their class
+	s := fmt.Sprintf("v=%x dcid_in_8_20=%v scid=%d", tap.Version, len(tap.ODCID) >= 8 && len(tap.ODCID) <= 20, len(tap.ClientSCID))
+	types := map[string]bool{}
+	for i, d := range tap.FirstFlight {
+		s += fmt.Sprintf(" dgram%d=%dB", i, len(d.Raw))
+		for _, p := range d.Packets {
+			s += fmt.Sprintf("[%s pn=%d pnlen=%d tok=%d]", p.Kind, p.PN, p.PNLen, len(p.Token))
+			for _, f := range p.Frames {
+				types[f.Name()] = true
+			}
+		}
+	}
+	s += fmt.Sprintf(" frames=%v suites=%v exts=", len(types), tap.CH.CipherSuites)
+	for _, e := range tap.CH.Extensions {
+		s += fmt.Sprintf("%d,", e.Type)
+	}
+	s += " tp="
+	for _, p := range tap.ClientTP.List {
+		if p.ID == wiretap.TPInitialSCID {
+			s += fmt.Sprintf("%#x:len%d,", p.ID, len(p.Value))
+		} else if p.ID >= 27 && (p.ID-27)%31 == 0 {
+			s += "grease,"
+		} else {
+			s += fmt.Sprintf("%#x:%x,", p.ID, p.Value)
+		}
+	}
+	return s, nil
+}
+
+func TestVerifC02NilSpec(t *testing.T) {
+	l := evlog.Open("C02")
+	defer l.Close()
+	confs := []struct {
+		name string
+		mk   func() *quic.Config
+	}{
+		{"default", func() *quic.Config { return &quic.Config{} }},
+		{"datagrams", func() *quic.Config { return &quic.Config{EnableDatagrams: true, MaxIdleTimeout: 17 * time.Second} }},
+		{"v2", func() *quic.Config { return &quic.Config{Versions: []quic.Version{quic.Version2}} }},
+		{"windows", func() *quic.Config {
+			return &quic.Config{InitialStreamReceiveWindow: 77777, InitialConnectionReceiveWindow: 99999, MaxIncomingStreams: 7, MaxIncomingUniStreams: 3, InitialPacketSize: 1252}
+		}},
+	}
+	dials := l.Pick(6, 60)
+	for i, cf := range confs {
+		if !l.Mine(i) {
+			continue
+		}
+		c := l.Begin("C02/nilspec/"+cf.name, map[string]any{"config": cf.name, "dials": dials})
+		if c == nil {
+			continue
+		}
+		shapes := map[string]map[string]int{"plain": {}, "unil": {}}
+		for _, kind := range []string{"plain", "unil"} {
+			for d := 0; d < dials; d++ {
+				synctest.Test(t, func(t *testing.T) {
+					sconf := cf.mk()
+					w, err := quicworld.New(quicworld.Options{RTT: 10 * time.Millisecond, ClientKind: kind, ClientConf: cf.mk(), ServerConf: sconf})
+					if err != nil {
+						c.Violation("C02|harness|world", err.Error(), nil)
+						return
+					}
+					ctx, cancel := context.WithTimeout(context.Background(), 10*time.Second)
+					go func() {
+						if sc, err := w.Accept(ctx); err == nil {
+							<-sc.Context().Done()
+						}
+					}()
+					cc, err := w.Dial(ctx)
+					if err != nil {
+						c.Violation("C02|nilspec|dial-error|kind="+kind, err.Error(), nil)
+					} else {
+						cc.CloseWithError(0, "")
+					}
+					cancel()
+					w.Close()
+					time.Sleep(time.Second)
+					if taps := w.Wire.Snapshot(); len(taps) > 0 {
+						if sh, err := c02Shape(taps[0]); err == nil {
+							shapes[kind][sh]++
+						} else {
+							c.Violation("C02|nilspec|first-flight-unreadable|kind="+kind, err.Error(), nil)
+						}
+					}
+				})
+				c.Eval(fmt.Sprintf("nilspec/%s/%s", cf.name, kind))
+			}
+		}
+		for sh := range shapes["unil"] {
+			if shapes["plain"][sh] == 0 {
+				var ref string
+				for p := range shapes["plain"] {
+					ref = p
+				}
+				c.Violation("C02|nilspec|first-flight-shape-differs-from-plain-transport|config="+cf.name, fmt.Sprintf("UTransport without a spec sent a first flight with a shape a plain Transport never produced under the same Config.\nUTransport{nil}: %s\nTransport      : %s", sh, ref), nil)
+			}
+		}
+		l.Count("nilspec_shapes_compared", int64(len(shapes["unil"])+len(shapes["plain"])))
+		c.Sample("nilspec", map[string]any{"config": cf.name, "distinct_shapes_plain": len(shapes["plain"]), "distinct_shapes_unil": len(shapes["unil"])})
 		c.End()
 	}
 }
